@@ -101,6 +101,11 @@ def honest_for(enc_logs, inp, dec_pcs_and_logs=()):
     return h
 
 
+def with_compares(h, dlog):
+    h['compares'] = [(e[1], e[2]) for e in dlog if e[0] == 'compare']
+    return h
+
+
 def mark_secret_mac_keys(h, assertions, secret):
     apps = cm.applications(assertions)
     keys = []
